@@ -448,6 +448,32 @@ pub fn run(out: &mut Out, tier: &str, seed: u64, prop: &str) {
                     }
                 }
             }
+            // small closed families around ONE atom of every node kind: the atom, its negation, and both combined with a later
+            // variable — every triple is checked for transitivity, every pair for antisymmetry and Equal <=> == (a fast path for one
+            // shape of node breaks the order only between that shape and its neighbours)
+            {
+                use crate::marker::Term;
+                let atoms = [Term::S(1, 6, "nt posix".into()), Term::S(1, 7, "nt posix".into()), Term::S(1, 8, "x".into()), Term::S(12, 0, "linux".into()), Term::S(12, 4, "linux".into()),
+                    Term::V(1, 5, "3.8".into()), Term::V(0, 0, "3.8".into()), Term::VI(1, false, vec!["3.8".into(), "3.9".into()]), Term::X(false, "cli".into())];
+                let zs = [Term::X(false, "zz".into()), Term::S(12, 8, "w".into()), Term::S(12, 6, "a b".into())];
+                for a in &atoms { for z in &zs {
+                    let fam = [a.clone(), Term::not(a.clone()), Term::or(a.clone(), z.clone()), Term::and(a.clone(), z.clone()), Term::or(Term::not(a.clone()), z.clone()), Term::and(Term::not(a.clone()), z.clone()), z.clone(), Term::not(z.clone()), Term::T, Term::F];
+                    let trees: Vec<MarkerTree> = fam.iter().filter_map(|t| crate::algebra::try_build(out, "C16", t)).collect();
+                    if trees.len() != fam.len() { return; }
+                    for (i, x) in trees.iter().enumerate() { for (j, y) in trees.iter().enumerate() {
+                        out.evaluations += 1;
+                        let xy = x.cmp(y);
+                        let input = serde_json::json!({"a": fam[i].line(), "b": fam[j].line()});
+                        if xy != y.cmp(x).reverse() || (xy == std::cmp::Ordering::Equal) != (x == y) || x.partial_cmp(y) != Some(xy) { out.oracle_fail("C16", "cmp is not antisymmetric / Equal for != markers / different from partial_cmp (small family around one atom)", input); }
+                        for (k, zt) in trees.iter().enumerate() {
+                            if xy == std::cmp::Ordering::Less && y.cmp(zt) == std::cmp::Ordering::Less && x.cmp(zt) != std::cmp::Ordering::Less {
+                                out.oracle_fail("C16", "cmp is not transitive", serde_json::json!({"a": fam[i].line(), "b": fam[j].line(), "c": fam[k].line()}));
+                            }
+                        }
+                    } }
+                    out.stat("c16.atom_families");
+                } }
+            }
             // Requirement and VerbatimUrl: Eq / Ord / Hash agree (VerbatimUrl ignores the verbatim text)
             std::env::set_var("VP_HOME_DIR", "home/ferris");
             let reqs = ["a @ https://x.org/home/ferris/p", "a @ https://x.org/${VP_HOME_DIR}/p", "a @ https://X.ORG/home/ferris/p", "a @ https://x.org/home/ferris/q", "a>=1", "a >= 1", "a>=1,<2", "a<2,>=1",
